@@ -55,7 +55,7 @@ fn exercise_regular(sm: &SourceMap, text: &str, out: &mut String) {
                 let again = decode_slice(&buf).is_ok();
                 let _ = write!(out, " ser={}", if again { "ok" } else { "REDECODE-FAILED" });
             }
-            Err(_) => out.push_str(" ser=err"),
+            Err(_) => out.push_str(" ser=SER-FAILED"),
         }
         let _ = sm.to_data_url().map(|u| decode_data_url(&u).is_ok());
     } else {
@@ -103,8 +103,9 @@ fn exercise(dm: &DecodedMap, text: &str, out: &mut String) {
                 }
             }
             let mut buf = vec![];
-            let _ = h.to_writer(&mut buf);
-            let _ = write!(out, " hser={}", decode_slice(&buf).is_ok());
+            let wrote = h.to_writer(&mut buf).is_ok();
+            let again = wrote && matches!(decode_slice(&buf), Ok(DecodedMap::Hermes(_)));
+            let _ = write!(out, " hser={}", if again { "ok" } else { "HSER-FAILED" });
         }
         DecodedMap::Index(ix) => {
             out.push_str(" index");
@@ -129,8 +130,9 @@ fn exercise(dm: &DecodedMap, text: &str, out: &mut String) {
             }
             let _ = ix.clone().flatten_and_rewrite(&RewriteOptions::default()).map(|m| m.get_token_count());
             let mut buf = vec![];
-            let _ = ix.to_writer(&mut buf);
-            let _ = write!(out, " iser={}", decode_slice(&buf).is_ok());
+            let wrote = ix.to_writer(&mut buf).is_ok();
+            let again = wrote && matches!(decode_slice(&buf), Ok(DecodedMap::Index(_)));
+            let _ = write!(out, " iser={}", if again { "ok" } else { "ISER-FAILED" });
         }
     }
 }
